@@ -60,6 +60,8 @@ val bind : 'a1 res -> ('a1 -> 'a2 res) -> 'a2 res
 
 val guard : bool -> nat -> unit res
 
+val remove1 : nat -> nat list -> nat list
+
 val list_eqb : nat list -> nat list -> bool
 
 val opt_eqb : nat option -> nat option -> bool
@@ -259,6 +261,8 @@ type parkent =
 | PkOp of oid
 | PkDead of oid
 
+val pkowner : parkent -> oid
+
 type cbwhy =
 | WInitial
 | WRestart
@@ -303,8 +307,10 @@ type taskh =
 | THTaken
 | THGone
 
-type actor = { a_cfg : spawn_cfg; a_queue : payload list;
-               a_parked : parkent list; a_rx : bool; a_phase : phase;
+type mbox = { m_bound : nat option; m_queue : payload list;
+              m_parked : parkent list; m_rx : bool }
+
+type actor = { a_cfg : spawn_cfg; a_mb : mbox; a_phase : phase;
                a_state : nat list; a_inc : nat; a_tx : nat; a_ftx : nat;
                a_inflight : nat; a_notif : notif; a_timers : timer list;
                a_children : (nat * hid) list; a_crashing : bool;
@@ -347,11 +353,7 @@ type sys = { actors : actor map0; handles : (aid * hkind) map0;
              ops : op map0; now : nat; joins : (aid * jstate) map0;
              reg : aid map0 }
 
-val set_a_queue : payload list -> actor -> actor
-
-val set_a_parked : parkent list -> actor -> actor
-
-val set_a_rx : bool -> actor -> actor
+val set_a_mb : mbox -> actor -> actor
 
 val set_a_phase : phase -> actor -> actor
 
@@ -421,7 +423,13 @@ val get_op : sys -> oid -> nat -> op res
 
 val put_op : sys -> oid -> op -> sys
 
-val over : actor -> bool
+val over : mbox -> bool
+
+val mb_enq : bool -> payload -> mbox -> mbox
+
+val mb_deq : mbox -> (payload * mbox) option
+
+val mb_drop : mbox -> mbox
 
 val enq : bool -> payload -> actor -> actor
 
@@ -488,3 +496,29 @@ val run : sys -> event list -> sys res
 val run_diag : sys -> event list -> nat -> (nat * nat) option
 
 val accepts : event list -> bool
+
+type m12 = { mb : nat option map0; mh : (aid * hkind) map0;
+             ms : (aid * bool) map0; mo : oid list map0; md : unit map0 }
+
+val m12_init : m12
+
+val out_of : m12 -> aid -> oid list
+
+val is_send_handle : hkind -> bool
+
+val m12_step : m12 -> event -> m12 option
+
+val m12_run : m12 -> event list -> m12 option
+
+val chk_C12 : event list -> bool
+
+type m12w = { wb : nat option map0; wh : (aid * hkind) map0;
+              wmust : oid option }
+
+val m12w_init : m12w
+
+val m12w_step : m12w -> event -> m12w option
+
+val m12w_run : m12w -> event list -> m12w option
+
+val chk_C12_nowait : event list -> bool
